@@ -646,6 +646,19 @@ class Engine:
         max_paths = max_paths or (3000 if ct.unwind == "havoc" else 400)
         oracle = Oracle()
         obligations = []
+        # decorators: extraction applies the calling convention of the known ones and drops them; any OTHER decorator (a cache, a retry
+        # wrapper ...) changes what a call of this function means, so the body alone is not the function any more -> undecided
+        if not ct.trusted and ct.func != "<error-table>":
+            mod0, cls0, fn0 = self.find_function(ct)
+            known = {"staticmethod", "classmethod", "property", "wraps", "setter", "hed_error", "hed_tag_error", "abstractmethod"}
+            for d in fn0.decorator_list:
+                base = d.func if isinstance(d, ast.Call) else d
+                nm = base.id if isinstance(base, ast.Name) else (base.attr if isinstance(base, ast.Attribute) else "?")
+                if nm not in known:
+                    ob = Obligation(f"{ct.cid}:unsupported:decorator {nm}", "unsupported", f"decorator {nm}", [], z3.BoolVal(False), "-")
+                    ob.verdict = "undecided"
+                    ob.detail = f"decorator @{nm} is not one the extraction understands: the decorated function is not its body"
+                    obligations.append(ob)
         obligations.extend(self.prove_lemmas(ct))
         obligations.extend(self.independence_obligations(ct))
         if ct.ghost.get("dataflow_only"):
